@@ -572,7 +572,7 @@ pub fn c10(rng: &mut impl Rng, len: usize) -> Vec<Value> {
 
 /// One field of a rule gets another value from a small domain (the same domains the generators of the
 /// family draw from), so the rule stays inside the space its specification covers.
-fn change_one_field(rng: &mut impl Rng, r: &mut Value, fam: &str) {
+fn change_one_field(rng: &mut impl Rng, r: &mut Value, fam: &str, align: u64) {
     let keys: &[&str] = match fam {
         "flow" => &["thr", "I", "maxq"],
         "hot" => &["thr", "burst", "dur", "maxq"],
@@ -596,11 +596,13 @@ fn change_one_field(rng: &mut impl Rng, r: &mut Value, fam: &str) {
                 }
             }
             "I" => {
-                if fam == "cb" {
-                    json!(*pick(rng, &[500u64, 1000, 1500, 2000]))
-                } else {
-                    json!(*pick(rng, &[0u64, 500, 1000, 2000, 3000, 700]))
-                }
+                // the epoch of the history is a multiple of `align`: only window lengths that divide it keep the
+                // recorded (relative) times aligned with the real bucket boundaries
+                let cands: Vec<u64> = (if fam == "cb" { vec![500u64, 1000, 1500, 2000] } else { vec![0u64, 500, 1000, 2000, 3000, 700] })
+                    .into_iter()
+                    .filter(|v| *v == 0 || align % *v == 0)
+                    .collect();
+                if cands.is_empty() { old.clone() } else { json!(*pick(rng, &cands)) }
             }
             "maxq" => json!(*pick(rng, &[0u64, 100, 500, 1000])),
             "burst" => json!(rng.gen_range(0..=3u64)),
@@ -624,6 +626,7 @@ pub fn with_reloads(rng: &mut impl Rng, evs: Vec<Value>, fam: &str, res: &str) -
     let mut cur: Vec<Value> = Vec::new();
     let mut out = Vec::new();
     let mut k = 0;
+    let align = evs.first().and_then(|e| e.get("align")).and_then(|x| x.as_u64()).unwrap_or(1000).max(1);
     for ev in evs {
         let is_load = ev["e"] == "load" && ev["fam"] == fam;
         if is_load {
@@ -647,12 +650,12 @@ pub fn with_reloads(rng: &mut impl Rng, evs: Vec<Value>, fam: &str, res: &str) -
                 let idxs: Vec<usize> = (0..rules.len()).filter(|i| rules[*i]["res"] == res).collect();
                 if !idxs.is_empty() {
                     let i = *pick(rng, &idxs);
-                    change_one_field(rng, &mut rules[i], fam);
+                    change_one_field(rng, &mut rules[i], fam, align);
                     // sometimes a second rule of the resource changes in the same call
                     if idxs.len() > 1 && rng.gen_bool(0.4) {
                         let j = *pick(rng, &idxs);
                         if j != i {
-                            change_one_field(rng, &mut rules[j], fam);
+                            change_one_field(rng, &mut rules[j], fam, align);
                         }
                     }
                 }
